@@ -674,5 +674,92 @@ pub fn npo_runner_faults() -> Vec<(String, String)> {
         }));
         out.push((name.to_string(), classify(r)));
     }
+    // the output of a non-primitive executor tied (connect) to a value the caller pins - a public input, a private input, a
+    // constant: the executor's write into the already populated slot is the only place the contradiction can be seen
+    // (ExecutionContext::set_witness), for the permutation and for the recompose table
+    {
+        use p3_symmetric::Permutation;
+        let xs = [KB::from_u64(1), KB::from_u64(2), KB::from_u64(3), KB::from_u64(4)];
+        let x = E4::from_basis_coefficients_slice(&xs).unwrap();
+        let mut st = [KB::ZERO; 16];
+        st[..4].copy_from_slice(&xs);
+        let o = default_koalabear_poseidon2_16().permute(st);
+        let digest = [E4::from_basis_coefficients_slice(&o[..4]).unwrap(), E4::from_basis_coefficients_slice(&o[4..8]).unwrap()];
+        // pin: 0 = public input, 1 = private input, 2 = constant; limb: which exposed output is tied
+        let build_perm = |pin: usize, limb: usize, pinned: E4| {
+            let mut b = kb4_builder();
+            let e = b.public_input();
+            let zero = b.define_const(E4::ZERO);
+            let (_id, outs) = b
+                .add_poseidon2_perm(&Poseidon2PermCall {
+                    config: Poseidon2Config::KOALA_BEAR_D4_W16,
+                    new_start: true,
+                    merkle_path: false,
+                    mmcs_bit: None,
+                    mmcs_bit2: None,
+                    inputs: vec![Some(e), Some(zero), Some(zero), Some(zero)],
+                    out_ctl: vec![true, true],
+                    return_all_outputs: false,
+                    mmcs_index_sum: None,
+                })
+                .unwrap();
+            let d = match pin {
+                0 => b.public_input(),
+                1 => b.alloc_private_input("claimed"),
+                _ => b.define_const(pinned),
+            };
+            b.connect(outs[limb].unwrap(), d);
+            b.build().unwrap()
+        };
+        let build_rec = |pin: usize, pinned: E4| {
+            let mut b = kb4_builder();
+            let p: Vec<ExprId> = (0..4).map(|_| b.public_input()).collect();
+            let e = b.recompose_base_coeffs_to_ext::<KB>(&p).unwrap();
+            let d = match pin {
+                0 => b.public_input(),
+                1 => b.alloc_private_input("claimed"),
+                _ => b.define_const(pinned),
+            };
+            b.connect(e, d);
+            b.build().unwrap()
+        };
+        for pin in 0..3usize {
+            let pn = ["public", "private", "const"][pin];
+            for limb in 0..2usize {
+                for (suffix, val) in [("honest", digest[limb]), ("conflict", digest[limb] + E4::ONE)] {
+                    let r = catch_unwind(AssertUnwindSafe(|| -> Result<(), String> {
+                        let c = build_perm(pin, limb, val);
+                        let mut runner = c.runner();
+                        let mut pubs = vec![x];
+                        if pin == 0 {
+                            pubs.push(val);
+                        }
+                        runner.set_public_inputs(&pubs).map_err(|e| format!("{e:?}"))?;
+                        if pin == 1 {
+                            runner.set_private_inputs(&[val]).map_err(|e| format!("{e:?}"))?;
+                        }
+                        runner.run().map(|_| ()).map_err(|e| format!("{e:?}"))
+                    }));
+                    out.push((format!("perm_output{limb}_pinned_{pn}_{suffix}"), classify(r)));
+                }
+            }
+            for (suffix, val) in [("honest", x), ("conflict", x + E4::ONE)] {
+                let r = catch_unwind(AssertUnwindSafe(|| -> Result<(), String> {
+                    let c = build_rec(pin, val);
+                    let mut runner = c.runner();
+                    let mut pubs: Vec<E4> = xs.iter().map(|&c| E4::from(c)).collect();
+                    if pin == 0 {
+                        pubs.push(val);
+                    }
+                    runner.set_public_inputs(&pubs).map_err(|e| format!("{e:?}"))?;
+                    if pin == 1 {
+                        runner.set_private_inputs(&[val]).map_err(|e| format!("{e:?}"))?;
+                    }
+                    runner.run().map(|_| ()).map_err(|e| format!("{e:?}"))
+                }));
+                out.push((format!("recompose_output_pinned_{pn}_{suffix}"), classify(r)));
+            }
+        }
+    }
     out
 }
